@@ -38,12 +38,13 @@ class Backing:
 
 class Sc:
     """abstract numpy scalar"""
-    __slots__ = ('d', 'dtype', 'unit')
+    __slots__ = ('d', 'dtype', 'unit', 'narrow')
 
-    def __init__(self, d, dtype='f8', unit=None):
+    def __init__(self, d, dtype='f8', unit=None, narrow=False):
         self.d = d
         self.dtype = dtype
         self.unit = unit
+        self.narrow = narrow        # np.float32 / np.float16 scalar
 
     def concrete(self):
         return X.is_num(self.d)
